@@ -346,14 +346,19 @@ def _r1(ctx, m):
     others = [f for f in rows if f not in inrow and f not in tail]
     first_col_fact = min(f.seq for f in fl.facts if colloop in f.loops)
     last_loop_fact = max(f.seq for f in fl.facts if rowloop in f.loops)
-    ok = len(inrow) == 1 and not inrow[0].guards and inrow[0].seq < first_col_fact and not others
+    # the same pointers written the other way round: the list starts as [0] and every row appends the running count AFTER its columns
+    # (no separate final append) -- [0, c1, .., nnz] either way
+    last_col_fact = max(f.seq for f in fl.facts if colloop in f.loops)
+    rows_init = [simp(f.value) for f in fl.facts if f.kind == "init" and f.target in names["rows"]]
+    trailing = rows_init == [("list", (("const", 0),))] and len(inrow) == 1 and not tail and not others and not inrow[0].guards and inrow[0].seq > last_col_fact
+    ok = trailing or (len(inrow) == 1 and not inrow[0].guards and inrow[0].seq < first_col_fact and not others)
     ctx.check(ok, "R1", "rowptr-before-columns", (FILE, inrow[0].line if inrow else rowloop.line),
               "each row appends the running count to the row pointers before its columns are visited, unconditionally",
               expected="rows.append(nnz) as first statement of the row loop",
               found=f"{len(inrow)} in-row appends" + (f" (guards: {[show(g) for g, _ in inrow[0].guards]}, after column loop: {inrow[0].seq > first_col_fact})" if inrow else "")
               + (f", {len(others)} appends elsewhere (lines {[f.line for f in others]})" if others else ""))
-    ok = len(tail) == 1 and not tail[0].guards and tail[0].seq > last_loop_fact
-    if ok and counter is None:
+    ok = trailing or (len(tail) == 1 and not tail[0].guards and tail[0].seq > last_loop_fact)
+    if ok and counter is None and not trailing:
         # len(<list>) is the final count only if it is evaluated after the loops
         ok = _evaluated_after(fl, simp(tail[0].value), tail[0].seq, last_loop_fact)
     ctx.check(ok, "R1", "rowptr-final", (FILE, tail[0].line if tail else rowloop.line),
@@ -400,8 +405,9 @@ def _r1(ctx, m):
               "the CSR lists are only initialised empty and appended to", found="; ".join(f"{f.kind}@{f.line}" for f in extra))
     for nm in sorted(allnames):
         ini = [f for f in fl.facts if f.kind == "init" and f.target == nm]
-        ctx.check(len(ini) == 1 and ini[0].value == ("list", ()) and not ini[0].loops, "R1", f"init:{nm}", (FILE, ini[0].line if ini else m.func.lineno),
-                  f"`{nm}` starts as the empty list, once", found="; ".join(show(f.value) for f in ini))
+        empty = ("list", (("const", 0),)) if (trailing and nm in names["rows"]) else ("list", ())
+        ctx.check(len(ini) == 1 and simp(ini[0].value) == empty and not ini[0].loops, "R1", f"init:{nm}", (FILE, ini[0].line if ini else m.func.lineno),
+                  f"`{nm}` starts as the empty list, once" if empty == ("list", ()) else f"`{nm}` starts as [0], once", found="; ".join(show(f.value) for f in ini))
 
 
 def _evaluated_after(fl, v, use_seq, after_seq):
@@ -705,9 +711,24 @@ def _r4_reactions(ctx):
         if fn is None:
             continue
         for c in _ast.walk(fn):
-            if isinstance(c, _ast.Call) and _ast.unparse(c.func) == "NetworkInfo" and len(c.args) >= 3:
-                src = " ".join(_ast.unparse(c.args[2]).split())
+            if isinstance(c, _ast.Call) and _ast.unparse(c.func) == "NetworkInfo" and not any(isinstance(a_, _ast.Starred) for a_ in c.args):
+                from .c02 import dataclass_fields
+                bound = dict(zip(dataclass_fields(pkg, "NetworkInfo"), c.args))
+                bound.update({k_.arg: k_.value for k_ in c.keywords if k_.arg})
+                arg = bound.get("reactions")
+                if arg is None:
+                    continue
+                if isinstance(arg, _ast.Name):
+                    # a local bound once stands for the expression it was bound to
+                    once = [st.value for st in _ast.walk(fn) if isinstance(st, _ast.Assign) and len(st.targets) == 1 and isinstance(st.targets[0], _ast.Name)
+                            and st.targets[0].id == arg.id]
+                    arg = once[0] if len(once) == 1 else arg
+                src = " ".join(_ast.unparse(arg).split())
                 good = src == "network.reactions" or src.startswith("network.reactions or [Reaction(")
+                if not good and not src.startswith("network."):
+                    # not an attribute of the network at all: which list this is cannot be told from here
+                    ctx.unrec("R4", f"{cls}.{meth}:NetworkInfo.reactions", (file, c.lineno), f"NetworkInfo.reactions receives `{src[:80]}`: not read as an attribute of the network")
+                    continue
                 ctx.check(good, "R4", f"{cls}.{meth}:NetworkInfo.reactions", (file, c.lineno),
                           "the reactions the templates count are network.reactions (dummy reaction included for the empty network)" if good else
                           "NetworkInfo.reactions is not network.reactions: NREACTIONS no longer counts the dummy reaction whose rate k[0] is still written",
@@ -822,6 +843,7 @@ def _split_args(code, i):
 
 T = FILE
 MUTANTS = [
+    {"name": "rowptr-appended-after-each-row-but-starts-empty", "file": T, "old": '        nnz = 0\n\n        for row in range(n_eqns):\n            spjacrptr.append(nnz)\n            for col in range(n_eqns):\n                elem = jacrhs[row * n_eqns + col]\n                if elem != "0.0":\n                    spjaccval.append(col)\n                    spjacdata.append(f"{elem}")\n                    nnz += 1\n        spjacrptr.append(nnz)\n', "new": '        nnz = 0\n\n        for row in range(n_eqns):\n            for col in range(n_eqns):\n                elem = jacrhs[row * n_eqns + col]\n                if elem != "0.0":\n                    spjaccval.append(col)\n                    spjacdata.append(f"{elem}")\n                    nnz += 1\n            spjacrptr.append(nnz)\n', "rules": ["R1"]},
     {"name": "sparse-colvals-index-loop-shifted", "file": JAC, "old": "    {% for col in ode.jac.cols -%}\n        colvals[{{ loop.index0 }}] = {{ col }};\n    {% endfor %}\n",
      "new": "    {% for i in range(ode.jac.cols | length) -%}\n        colvals[{{ i }}] = {{ ode.jac.cols[i - 1] }};\n    {% endfor %}\n", "rules": ["R3"]},
     {"name": "sentinel-class-constant-differs-from-the-table-cells", "edits": [
@@ -854,6 +876,9 @@ MUTANTS = [
     {"name": "nequations-macro", "file": MACROS, "old": "#define NEQUATIONS (NSPECIES + THERMAL)", "new": "#define NEQUATIONS (NSPECIES)", "rules": ["R4"]},
 ]
 BENIGN = [
+    {"name": "rowptr-starts-at-zero-appended-after-each-row", "edits": [
+        {"file": T, "old": '        spjacrptr = []\n', "new": '        spjacrptr = [0]\n'},
+        {"file": T, "old": '        nnz = 0\n\n        for row in range(n_eqns):\n            spjacrptr.append(nnz)\n            for col in range(n_eqns):\n                elem = jacrhs[row * n_eqns + col]\n                if elem != "0.0":\n                    spjaccval.append(col)\n                    spjacdata.append(f"{elem}")\n                    nnz += 1\n        spjacrptr.append(nnz)\n', "new": '        nnz = 0\n\n        for row in range(n_eqns):\n            for col in range(n_eqns):\n                elem = jacrhs[row * n_eqns + col]\n                if elem != "0.0":\n                    spjaccval.append(col)\n                    spjacdata.append(f"{elem}")\n                    nnz += 1\n            spjacrptr.append(nnz)\n'}]},
     {"name": "sparse-colvals-by-index-loop", "file": JAC, "old": "    {% for col in ode.jac.cols -%}\n        colvals[{{ loop.index0 }}] = {{ col }};\n    {% endfor %}\n",
      "new": "    {% for i in range(ode.jac.cols | length) -%}\n        colvals[{{ i }}] = {{ ode.jac.cols[i] }};\n    {% endfor %}\n"},
     {"name": "csr-rows-enumerated-slices", "file": T, "old": '        nnz = 0\n\n        for row in range(n_eqns):\n            spjacrptr.append(nnz)\n            for col in range(n_eqns):\n                elem = jacrhs[row * n_eqns + col]\n                if elem != "0.0":\n                    spjaccval.append(col)\n                    spjacdata.append(f"{elem}")\n                    nnz += 1\n        spjacrptr.append(nnz)\n',
